@@ -457,6 +457,11 @@ class Check:
             known_findings_hit=sorted(seen_known),
             notes=self.notes[-40:],
         )
+        # keys the evidence schema types: a builder's extra detail under one of these names is moved aside, never dropped
+        for k, ty in (("exhaustive", bool), ("states", int), ("transitions", int), ("traces_validated_against_impl", int),
+                      ("programs", int), ("disagreements_checked", int), ("explanation", str), ("rule", str)):
+            if k in cov and (not isinstance(cov[k], ty) or (ty is int and isinstance(cov[k], bool))):
+                cov[k + "_detail"] = cov.pop(k)
         ev = {
             "property_id": self.pid,
             "tier": self.tier,
